@@ -22,15 +22,27 @@ ChecksSmall(e) == {
       /\ Len(e.sdec) >= 1
       /\ \A i \in 1..Len(e.sdec) : e.sdec[i].ec = "none" /\ e.sdec[i].v = e.v /\ e.sdec[i].n = Len(e.enc)>> }
 
-\* struct {7: binary(len)} with the payload abstracted to (len, sha256)
-BigHead(n) == << TBinary >> \o BE16(7) \o BE32(n)
-BigSide(s, e) == s.head = BigHead(e.len) /\ s.bodylen = e.len /\ s.bodysha = e.sha /\ s.tail = << 0 >>
+\* values made of large binaries, with every payload abstracted to (len, sha256):
+\* shape "struct" = fields 7, 8, ... of type binary; shape "list" = list<binary>
+PartHead(e, i) == IF e.shape = "list" THEN BE32(e.parts[i].len)
+                  ELSE << TBinary >> \o BE16(6 + i) \o BE32(e.parts[i].len)
+BigSide(s, e) ==
+  /\ s.wellformed
+  /\ s.pre = (IF e.shape = "list" THEN << TBinary >> \o BE32(Len(e.parts)) ELSE <<>>)
+  /\ Len(s.parts) = Len(e.parts)
+  /\ \A i \in 1..Len(e.parts) : /\ s.parts[i].head = PartHead(e, i)
+                                 /\ s.parts[i].bodylen = e.parts[i].len /\ s.parts[i].bodysha = e.parts[i].sha
+  /\ s.tail = (IF e.shape = "list" THEN <<>> ELSE << 0 >>)
+BigDec(d, e) ==
+  /\ d.ec = "none" /\ Len(d.parts) = Len(e.parts)
+  /\ \A i \in 1..Len(e.parts) : /\ d.parts[i].id = (IF e.shape = "list" THEN i - 1 ELSE 6 + i)
+                                 /\ d.parts[i].len = e.parts[i].len /\ d.parts[i].sha = e.parts[i].sha
 ChecksBig(e) == {
   <<"no-panic", e.panic = "">>,
   <<"encode-bytes", e.encerr = "none" /\ BigSide(e.enc, e)>>,
   <<"stream-writer-bytes", e.swerr = "none" /\ BigSide(e.sw, e)>>,
-  <<"decode-roundtrip", e.dec.ec = "none" /\ e.dec.id = 7 /\ e.dec.len = e.len /\ e.dec.sha = e.sha>>,
-  <<"stream-decode-roundtrip", e.sdec.ec = "none" /\ e.sdec.id = 7 /\ e.sdec.len = e.len /\ e.sdec.sha = e.sha>> }
+  <<"decode-roundtrip", BigDec(e.dec, e)>>,
+  <<"stream-decode-roundtrip", BigDec(e.sdec, e)>> }
 
 Fails(e) == Failed(IF e.op = "c02big" THEN ChecksBig(e) ELSE ChecksSmall(e))
 
